@@ -17,6 +17,7 @@ core = simproc.core
 ID = "C02"
 LEVEL = "exploration"
 BATCH = 40
+PROBES_EXPECTED = ['probe:user-entries-in-file', 'probe:restart-with-deprecated-block', 'probe:default-injected']
 TIERS = {"quick": {"runs": 9000, "wall": 50}, "thorough": {"runs": 400000, "wall": 840}}
 RULE = ("each run draws a program (optionally a rename table), knobs (parser, policy, set-order salt) and an admissible history of 0-25 "
         "set/unset/reset/load/merge/restart operations (loads only of files the tool wrote for the same program or of hand-written "
